@@ -129,7 +129,17 @@ func oracleC07(f *sessionFam, w *World, res *Result) []Violation {
 				continue
 			}
 			// a ping that should have been emitted before the end
-			if outstanding == nil && closeEv == nil && lastAccept+pi < endT && lastAccept+pi < drainAt {
+			// (a session the application has closed gracefully creates no ping while it waits, in state 'closing',
+			// for the client's next poll; the heartbeat deadline still bounds that wait - C12's clause)
+			closingBy := func(t time.Duration) bool {
+				for _, e := range w.evs(a, "app-close") {
+					if e.T <= t {
+						return true
+					}
+				}
+				return false
+			}
+			if outstanding == nil && closeEv == nil && lastAccept+pi < endT && lastAccept+pi < drainAt && !closingBy(lastAccept+pi) {
 				l.add("ping-one-interval-after-accept", "missing", fmt.Sprintf("%s [%s]: no ping by %v although the last open/pong was at %v (interval %v)", a, ctx, endT, lastAccept, pi))
 			}
 			if closeEv != nil && closeEv.S == "ping timeout" {
